@@ -17,6 +17,9 @@ theorem keepUnless_pos {c : Prop} (h : c) (o : Option File) : keepUnless c o = n
 theorem keepUnless_neg {c : Prop} (h : ¬ c) (o : Option File) : keepUnless c o = o := by
   unfold keepUnless; exact @if_neg _ (Classical.propDecidable c) h _ _ _
 
+theorem keepUnless_none (c : Prop) : keepUnless c none = none := by
+  unfold keepUnless; exact @ite_self _ c (Classical.propDecidable c) none
+
 theorem keepUnless_congr {c c' : Prop} (h : c ↔ c') (o : Option File) : keepUnless c o = keepUnless c' o := by
   have : c = c' := propext h
   rw [this]
@@ -45,9 +48,11 @@ theorem foldl_remove_get {ι : Type} (cutoff : Int) (step : FS → ι → FS) (Q
     rw [ih (step fs x) p, hstep fs x p]
     by_cases hs : stale cutoff (fs.get p) = true
     · by_cases hq : Q x p
-      · have h1 : (∃ y ∈ x :: rest, Q y p) := ⟨x, by simp, hq⟩
-        rw [keepUnless_pos ⟨hq, hs⟩, keepUnless_pos ⟨h1, hs⟩, keepUnless_neg (by simp [stale_none])]
-      · rw [keepUnless_neg (fun h => hq h.1)]
+      · have hin : keepUnless (Q x p ∧ stale cutoff (fs.get p) = true) (fs.get p) = none := keepUnless_pos ⟨hq, hs⟩ _
+        have h1 : (∃ y ∈ x :: rest, Q y p) := ⟨x, by simp, hq⟩
+        rw [hin, keepUnless_none, keepUnless_pos ⟨h1, hs⟩]
+      · have hin : keepUnless (Q x p ∧ stale cutoff (fs.get p) = true) (fs.get p) = fs.get p := keepUnless_neg (fun h => hq h.1) _
+        rw [hin]
         apply keepUnless_congr
         constructor
         · rintro ⟨⟨y, hy, hqy⟩, h⟩; exact ⟨⟨y, by simp [hy], hqy⟩, h⟩
@@ -56,12 +61,8 @@ theorem foldl_remove_get {ι : Type} (cutoff : Int) (step : FS → ι → FS) (Q
           rcases hy with rfl | hy
           · exact absurd hqy hq
           · exact ⟨⟨y, hy, hqy⟩, h⟩
-    · rw [keepUnless_neg (fun h => hs h.2), keepUnless_neg (fun h => hs h.2)]
-      rw [keepUnless_neg]
-      intro h
-      apply hs
-      have := h.2
-      rwa [keepUnless_neg (fun h => hs h.2)] at this
+    · have hin : keepUnless (Q x p ∧ stale cutoff (fs.get p) = true) (fs.get p) = fs.get p := keepUnless_neg (fun h => hs h.2) _
+      rw [hin, keepUnless_neg (fun h => hs h.2), keepUnless_neg (fun h => hs h.2)]
 
 /-! ### one subdirectory -/
 
